@@ -1,10 +1,13 @@
 import ArgoVerif.Props.SchedCommon
+import ArgoVerif.Proofs.Join
 /-
 Props.C03 — join/free return after, and only after, the target has terminated (unit-level part: the return is
 conditioned on the TERMINATED store; the joiner/target hand-shake on the request word and `p_link` is tied by T1
 skeletons and explored under the controlled scheduler, where a joiner that is never woken is a detected deadlock).
 -/
 namespace ArgoVerif.Props.C03
+
+section unitLevel
 open ArgoVerif ArgoVerif.Model.Sched
 
 /-- **join returns only after termination**: the return of join / free to its caller is enabled only when the target's
@@ -45,5 +48,78 @@ theorem free_once (s s' : St) (u : UnitId) (hs : step s (.free u) = some s') :
 example : (machine.run init
       [.create 1 0, .push 0 1, .pop 7 0 1, .setSt 1 .running, .run 7 1, .userStart 1, .userEnd 1, .finish 7 1,
        .cb 7 1 .exit, .terminate 1, .joinRet 9 1]).isNone = true := by decide
+
+end unitLevel
+
+/-! ## The atomic hand-shake (Model.Join): request word, link, BLOCKED store, resume — all interleavings -/
+
+namespace Hs
+open ArgoVerif ArgoVerif.Model.Join
+
+/-- **join returns only after TERMINATED** (atomic level): the joiner's return is enabled only after it has read
+TERMINATED, which only the last step of the target's exit path stores -/
+theorem join_ret_after_term (s : St) (h : machine.Reachable s) (hd : s.jpc = .done) : s.term = true ∧ s.tpc = .done := by
+  have hi := inv_reachable s h
+  exact ⟨hi.doneTerm hd, hi.termIff.mp (hi.doneTerm hd)⟩
+
+/-- **no lost wake-up**: while the joiner is suspended (BLOCKED with the link published, or asleep on its futex) and has
+not been resumed, the target has not passed the point where it looks for its joiner: it is still before, or in, the
+joiner look-up (it will read the link, or spin until the link appears), or about to resume the joiner -/
+theorem join_no_lost_wakeup_safety (s : St) (h : machine.Reachable s) (hj : s.jpc = .blocked ∨ s.jpc = .xsleep) :
+    s.link = true ∧ s.resumes = 0 ∧
+    (s.tpc = .run ∨ s.tpc = .ldl ∨ s.tpc = .fo ∨ s.tpc = .spin ∨ s.tpc = .res) := by
+  have hi := inv_reachable s h
+  have hs := hi.suspended (by rcases hj with h1 | h1 <;> rw [h1] <;> trivial)
+  refine ⟨hs.2.1, hs.2.2.2.1, ?_⟩
+  have ht := hs.2.2.2.2
+  cases htp : s.tpc <;> rw [htp] at ht <;> simp_all [TBefore]
+
+/-- **single resume**: the target resumes its joiner at most once, and only a joiner that is completely suspended
+(BLOCKED stored before the link was published) — never both a jump and a push, never twice -/
+theorem join_single_resume (s s' : St) (h : machine.Reachable s) (hs : step s .tResume = some s') :
+    s.resumes = 0 ∧ s'.resumes = 1 ∧ s.jBlocked = true ∧ (s.jpc = .blocked ∨ s.jpc = .xsleep) := by
+  have hi := inv_reachable s h
+  simp only [step] at hs
+  split at hs
+  · rename_i hg
+    cases hs
+    have hsu := hi.suspended (by rcases hg.2.2 with h1 | h1 <;> rw [h1] <;> trivial)
+    exact ⟨hsu.2.2.2.1, by simp [hsu.2.2.2.1], hg.2.1, hg.2.2⟩
+  · cases hs
+
+/-- the link is published only after the joiner's BLOCKED store (its context is saved), so the target can only ever find
+a fully suspended joiner; and whoever wins the fetch_or decides the path: both cannot win -/
+theorem join_link_after_blocked (s : St) (h : machine.Reachable s) :
+    (s.jpc = .lnk → s.jBlocked = true) ∧ (s.tpc = .res → s.link = true ∧ (s.jpc = .blocked ∨ s.jpc = .xsleep)) ∧
+    ¬ (s.jWon = true ∧ s.tWon = true) := by
+  have hi := inv_reachable s h
+  refine ⟨hi.blkFlag, ?_, hi.wonExcl⟩
+  intro hr
+  have := hi.resFound hr
+  refine ⟨this.1, ?_⟩
+  cases hj : s.jpc <;> simp_all [JSusp]
+
+/-- **deadlock freedom**: in every reachable state in which a join is in progress or the target has not finished, some
+step other than an unsuccessful poll is enabled: nobody waits for an event that cannot happen -/
+theorem join_deadlock_free (s : St) (h : machine.Reachable s) (hbusy : s.jpc ≠ .idle ∨ s.tpc ≠ .done) :
+    canProgress s = true ∨ s.tpc = .run := by
+  have hi := inv_reachable s h
+  have h4 := hi.suspended; have h10 := hi.termIff; have h3 := hi.publishing
+  unfold canProgress
+  cases hj : s.jpc <;> cases ht : s.tpc <;> simp_all [JSusp, JPublishing, TBefore]
+
+/-- non-vacuity: the three orders of the two fetch_or's and the link store are all accepted -/
+example : (machine.run init [.jCall true, .jLoadState false, .jFetchOr false, .jStoreBlocked, .tExit, .tLoadLink false,
+      .tFetchOr true, .tLoadLink false, .jStoreLink, .tLoadLink true, .tResume, .jLoadState false, .tStoreTerminated,
+      .jLoadState true, .jRet]).map (fun s => decide (s.resumes = 1 ∧ s.jpc = .idle ∧ s.term = true)) = some true := by decide
+example : (machine.run init [.tExit, .tLoadLink false, .jCall true, .jLoadState false, .tFetchOr false, .jFetchOr true,
+      .jLoadState false, .tStoreTerminated, .jLoadState true, .jRet]).map
+        (fun s => decide (s.resumes = 0 ∧ s.tWon = true ∧ s.jWon = false)) = some true := by decide
+/-- publishing the link before the BLOCKED store is rejected, and so is a return before TERMINATED -/
+example : (machine.run init [.jCall true, .jLoadState false, .jFetchOr false, .jStoreLink]).isNone = true := by decide
+example : (machine.run init [.jCall true, .jLoadState false, .jFetchOr false, .jStoreBlocked, .jStoreLink, .tExit,
+      .tLoadLink true, .tResume, .jRet]).isNone = true := by decide
+
+end Hs
 
 end ArgoVerif.Props.C03
